@@ -136,45 +136,58 @@ Section PathCropped.
     if (0 <=? k)%Z && (k <? Z.of_nat (length segs))%Z then Ok (Z.to_nat k) else Err EIndex.
   Definition zmodn (z : Z) (n : nat) : nat := Z.to_nat (z mod Z.of_nat n).
 
+  (* ---- variants of the code (repairs of three defects; all false = the code as pinned) ----
+     ix: i0 / i1 are the indices T2t returned (seg0_idx, seg1_idx) instead of
+         self.index(seg) = the FIRST EQUAL segment;
+     hw: an np.isclose hand-over neither wraps around an end of the path nor
+         moves the start beyond the end (block inserted after the two locations);
+     tz: `if T1 == 0 and 0 < T0 < 1 and self.isclosed(): return self.cropped(T0, 1)`. *)
+  Definition py_index_v (ix : bool) (segs : list S) (k : nat) : option nat :=
+    if ix then Some k else py_index segs k.
+
   (* where the crop ends:
        if T1 == 1: seg1 = self[-1]; t_seg1 = 1; i1 = len(self) - 1
        else: seg1_idx, t_seg1 = self.T2t(T1); seg1 = self[seg1_idx]
              if np.isclose(t_seg1, 0): i1 = (self.index(seg1) - 1) % len(self)
                                        seg1 = self[i1]; t_seg1 = 1
-             else: i1 = self.index(seg1) *)
+             else: i1 = self.index(seg1)
+     (ix: seg1_idx in place of self.index(seg1)) *)
   (* result: (i1, t_seg1, index of the object seg1): in the last branch seg1 stays
      self[seg1_idx] while i1 = self.index(seg1) may be an EARLIER equal segment *)
-  Definition loc1 (segs : list S) (T1 : K) (r1 : res (Z * K)) : res (nat * K * nat) :=
+  Definition loc : Type := (nat * K * nat)%type.
+  Definition loc1_v (ix : bool) (segs : list S) (T1 : K) (r1 : res (Z * K)) : res loc :=
     if eqb N T1 (one N) then
       (if (length segs =? 0)%nat then Err EIndex
        else Ok ((length segs - 1)%nat, one N, (length segs - 1)%nat))
     else rbind r1 (fun kt =>
          rbind (zindex segs (fst kt)) (fun k =>
-         match py_index segs k with
+         match py_index_v ix segs k with
          | None => Err EValue
          | Some j =>
              if isclose (snd kt) (zero N)
              then let i := zmodn (Z.of_nat j - 1) (length segs) in Ok (i, one N, i)
              else Ok (j, snd kt, k)
          end)).
+  Definition loc1 := loc1_v false.
   (* where it starts:
        if T0 == 0: seg0 = self[0]; t_seg0 = 0; i0 = 0
        else: seg0_idx, t_seg0 = self.T2t(T0); seg0 = self[seg0_idx]
              if np.isclose(t_seg0, 1): i0 = (self.index(seg0) + 1) % len(self)
                                        seg0 = self[i0]; t_seg0 = 0
              else: i0 = self.index(seg0) *)
-  Definition loc0 (segs : list S) (T0 : K) (r0 : res (Z * K)) : res (nat * K * nat) :=
+  Definition loc0_v (ix : bool) (segs : list S) (T0 : K) (r0 : res (Z * K)) : res loc :=
     if eqb N T0 (zero N) then
       (if (length segs =? 0)%nat then Err EIndex else Ok (0%nat, zero N, 0%nat))
     else rbind r0 (fun kt =>
          rbind (zindex segs (fst kt)) (fun k =>
-         match py_index segs k with
+         match py_index_v ix segs k with
          | None => Err EValue
          | Some j =>
              if isclose (snd kt) (one N)
              then let i := zmodn (Z.of_nat j + 1) (length segs) in Ok (i, zero N, i)
              else Ok (j, snd kt, k)
          end)).
+  Definition loc0 := loc0_v false.
 
   (* for i in range(a, b): new_path.append(self[i]) *)
   Definition origs (segs : list S) (a b : nat) : res (list (piece S K)) :=
@@ -183,7 +196,9 @@ Section PathCropped.
                   rbind acc (fun l => Ok (mkPiece true i (zero N) (one N) s :: l))))
                (Ok []) (List.seq a (b - a)).
 
-  (*   if T0 < T1 and i0 == i1: new_path = Path(seg0.cropped(t_seg0, t_seg1))
+  (* the pieces, once the two locations l0 = (i0, t_seg0, position of seg0),
+     l1 = (i1, t_seg1, position of seg1) are known:
+       if T0 < T1 and i0 == i1: new_path = Path(seg0.cropped(t_seg0, t_seg1))
        else:
            new_path = Path(seg0.cropped(t_seg0, 1))
            if T1 < T0:
@@ -192,13 +207,11 @@ Section PathCropped.
                      for i in range(0, i1): new_path.append(self[i])
            else: for i in range(i0 + 1, i1): new_path.append(self[i])
            if t_seg1 != 0: new_path.append(seg1.cropped(0, t_seg1)) *)
-  Definition path_cropped_main (segs : list S) (T0 T1 : K) (r0 r1 : res (Z * K))
-             (closed : res bool) : res (list (piece S K)) :=
-    rbind (loc1 segs T1 r1) (fun l1 =>
-      let i1 := fst (fst l1) in let t1 := snd (fst l1) in let j1 := snd l1 in
+  Definition assemble (segs : list S) (T0 T1 : K) (closed : res bool) (l0 l1 : loc)
+    : res (list (piece S K)) :=
+    let i1 := fst (fst l1) in let t1 := snd (fst l1) in let j1 := snd l1 in
+    let i0 := fst (fst l0) in let t0 := snd (fst l0) in let j0 := snd l0 in
     rbind (getseg segs j1) (fun s1 =>
-    rbind (loc0 segs T0 r0) (fun l0 =>
-      let i0 := fst (fst l0) in let t0 := snd (fst l0) in let j0 := snd l0 in
     rbind (getseg segs j0) (fun s0 =>
     if ltb N T0 T1 && (i0 =? i1)%nat then
       rbind (crop s0 t0 t1) (fun c => Ok [mkPiece false j0 t0 t1 c])
@@ -214,22 +227,102 @@ Section PathCropped.
       if neqb N t1 (zero N) then
         rbind (crop s1 (zero N) t1) (fun c1 =>
           Ok (mkPiece false j0 t0 (one N) c0 :: mid ++ [mkPiece false j1 (zero N) t1 c1]))
-      else Ok (mkPiece false j0 t0 (one N) c0 :: mid))))))).
+      else Ok (mkPiece false j0 t0 (one N) c0 :: mid))))).
+
+  (* the hw repair, inserted between the locations and the assembly:
+       if T1 != 1:
+           k1, t1_raw = self.T2t(T1)
+           if k1 == 0 and np.isclose(t1_raw, 0):       # end within tolerance of the start of the path
+               seg1, i1 = self[0], 0
+               t_seg1 = 0 if T1 < T0 else t1_raw
+       if T0 != 0:
+           k0, t0_raw = self.T2t(T0)
+           if k0 == len(self) - 1 and np.isclose(t0_raw, 1):   # start within tolerance of the end
+               if T0 < T1 or t_seg1 == 0: seg0, i0, t_seg0 = self[k0], k0, t0_raw
+               elif self.isclosed(): return self.cropped(0, T1)
+               (else: open path with T1 < T0, left as it is: the ValueError follows)
+       if T0 < T1 and i0 > i1:                           # both within tolerance of one joint
+           seg0, i0, t_seg0 = self[k0], k0, t0_raw
+           seg1, i1, t_seg1 = self[k1], k1, t1_raw *)
+  Inductive locs := Locs (l0 l1 : loc) | Again.        (* Again = `return self.cropped(0, T1)` *)
+  Definition raw_loc (kt : Z * K) : loc := (Z.to_nat (fst kt), snd kt, Z.to_nat (fst kt)).
+  Definition fix_hand (segs : list S) (T0 T1 : K) (r0 r1 : res (Z * K)) (closed : res bool)
+             (l0 l1 : loc) : res locs :=
+    rbind (if eqb N T1 (one N) then Ok l1
+           else rbind r1 (fun kt =>
+                  if (fst kt =? 0)%Z && isclose (snd kt) (zero N)
+                  then Ok (0%nat, (if ltb N T1 T0 then zero N else snd kt), 0%nat)
+                  else Ok l1)) (fun l1' =>
+    rbind (if eqb N T0 (zero N) then Ok (Locs l0 l1')
+           else rbind r0 (fun kt =>
+                  if (fst kt =? Z.of_nat (length segs) - 1)%Z && isclose (snd kt) (one N)
+                  then if ltb N T0 T1 || eqb N (snd (fst l1')) (zero N)
+                       then Ok (Locs (raw_loc kt) l1')
+                       else rbind closed (fun cl => if cl then Ok Again else Ok (Locs l0 l1'))
+                  else Ok (Locs l0 l1'))) (fun lr =>
+    match lr with
+    | Again => Ok Again
+    | Locs l0' l1'' =>
+        if ltb N T0 T1 && (fst (fst l1'') <? fst (fst l0'))%nat
+        then rbind r0 (fun kt0 => rbind r1 (fun kt1 => Ok (Locs (raw_loc kt0) (raw_loc kt1))))
+        else Ok (Locs l0' l1'')
+    end)).
+
+  Definition locs_v (ix hw : bool) (segs : list S) (T0 T1 : K) (r0 r1 : res (Z * K))
+             (closed : res bool) : res locs :=
+    rbind (loc1_v ix segs T1 r1) (fun l1 =>
+    rbind (loc0_v ix segs T0 r0) (fun l0 =>
+    if hw then fix_hand segs T0 T1 r0 r1 closed l0 l1 else Ok (Locs l0 l1))).
+
+  (* the plan of a crop: effective T0, T1 and the two locations.  The part of cropped()
+     after the asserts and the top-level redirects: *)
+  Definition plan : Type := (K * K * loc * loc)%type.
+  Definition plan_main (ix hw : bool) (segs : list S) (T0 T1 : K) (r0 r1 : res (Z * K))
+             (closed : res bool) : res plan :=
+    rbind (locs_v ix hw segs T0 T1 r0 r1 closed) (fun lr =>
+    match lr with
+    | Locs l0 l1 => Ok (T0, T1, l0, l1)
+    | Again =>                                       (* self.cropped(0, T1): T0 == 0 cannot redirect again *)
+        rbind (locs_v ix hw segs (zero N) T1 (Ok (0%Z, zero N)) r1 closed) (fun lr' =>
+        match lr' with
+        | Locs l0 l1 => Ok (zero N, T1, l0, l1)
+        | Again => Err ERuntime
+        end)
+    end).
+  Definition run_plan (segs : list S) (closed : res bool) (p : plan) : res (list (piece S K)) :=
+    let '(T0, T1, l0, l1) := p in assemble segs T0 T1 closed l0 l1.
 
   (*   assert 0 <= T0 <= 1 and 0 <= T1 <= 1
        assert T0 != T1
        assert not (T0 == 1 and T1 == 0)
-       if T0 == 1 and 0 < T1 < 1 and self.isclosed(): return self.cropped(0, T1) *)
-  Definition path_cropped (segs : list S) (T0 T1 : K) (r0 r1 : res (Z * K))
-             (closed : res bool) : res (list (piece S K)) :=
+       if T0 == 1 and 0 < T1 < 1 and self.isclosed(): return self.cropped(0, T1)
+       (tz:) if T1 == 0 and 0 < T0 < 1 and self.isclosed(): return self.cropped(T0, 1) *)
+  Definition crop_plan (ix hw tz : bool) (segs : list S) (T0 T1 : K) (r0 r1 : res (Z * K))
+             (closed : res bool) : res plan :=
     if negb (in01 T0 && in01 T1) then Err EAssert
     else if eqb N T0 T1 then Err EAssert
     else if eqb N T0 (one N) && eqb N T1 (zero N) then Err EAssert
-    else if eqb N T0 (one N) && ltb N (zero N) T1 && ltb N T1 (one N) then
-      rbind closed (fun cl =>
-        if cl then path_cropped_main segs (zero N) T1 (Ok (0%Z, zero N)) r1 closed
-        else path_cropped_main segs T0 T1 r0 r1 closed)
-    else path_cropped_main segs T0 T1 r0 r1 closed.
+    else
+      let rest :=
+        if tz && eqb N T1 (zero N) && ltb N (zero N) T0 && ltb N T0 (one N) then
+          rbind closed (fun cl =>
+            if cl then plan_main ix hw segs T0 (one N) r0 (Ok (Z.of_nat (length segs) - 1, one N))%Z closed
+            else plan_main ix hw segs T0 T1 r0 r1 closed)
+        else plan_main ix hw segs T0 T1 r0 r1 closed in
+      if eqb N T0 (one N) && ltb N (zero N) T1 && ltb N T1 (one N) then
+        rbind closed (fun cl =>
+          if cl then plan_main ix hw segs (zero N) T1 (Ok (0%Z, zero N)) r1 closed
+          else rest)
+      else rest.
+  Definition path_cropped_v (ix hw tz : bool) (segs : list S) (T0 T1 : K) (r0 r1 : res (Z * K))
+             (closed : res bool) : res (list (piece S K)) :=
+    rbind (crop_plan ix hw tz segs T0 T1 r0 r1 closed) (run_plan segs closed).
+
+  (* the code as pinned *)
+  Definition path_cropped_main (segs : list S) (T0 T1 : K) (r0 r1 : res (Z * K))
+             (closed : res bool) : res (list (piece S K)) :=
+    rbind (plan_main false false segs T0 T1 r0 r1 closed) (run_plan segs closed).
+  Definition path_cropped := path_cropped_v false false false.
 
   Definition piece_segs (ps : list (piece S K)) : list S := map (@p_seg S K) ps.
 End PathCropped.
